@@ -21,7 +21,7 @@ DROP = "__DROP__"
 class Scenario:
     def __init__(self, name, backend, conns, script, config=None, storage_options=None,
                  allow_drop=(), stall=(), setup=None, horizon=50.0, rate_limits=None, max_limit=6000,
-                 allow_timer_deviation=True, finish=None, meta=None):
+                 allow_timer_deviation=True, finish=None, meta=None, connect=None, job_priority=None):
         self.name = name
         self.backend = backend
         self.conns = conns  # [(name, addr)]
@@ -37,6 +37,8 @@ class Scenario:
         self.allow_timer_deviation = allow_timer_deviation
         self.finish = finish
         self.meta = meta or {}
+        self.connect = connect            # optional hook(world, name, addr) -> Conn (e.g. a connection served by a second worker)
+        self.job_priority = job_priority  # optional list of job kinds: the default schedule serves jobs of earlier kinds first
 
 
 class Execution:
@@ -62,7 +64,7 @@ def run(scn, prefix, keep_trace=False, strict=True):
         if scn.setup is not None:
             scn.setup(w)
         for name, addr in scn.conns:
-            c = w.connect(name, addr)
+            c = scn.connect(w, name, addr) if scn.connect is not None else w.connect(name, addr)
             if name in scn.stall:
                 c.stall = True
         pending = list(scn.script)
@@ -84,9 +86,15 @@ def run(scn, prefix, keep_trace=False, strict=True):
                 # keep serving the actor (asyncio task) whose job completed last, if it has another one pending: letting another
                 # actor run for many steps while this one waits then costs ONE deviation (a preemption), not one per step
                 k = 0
+                cand = list(range(len(jobs)))
+                if scn.job_priority:
+                    rank = {kind: r for r, kind in enumerate(scn.job_priority)}
+                    best = min(rank.get(jobs[i].kind, len(rank)) for i in cand)
+                    cand = [i for i in cand if rank.get(jobs[i].kind, len(rank)) == best]
+                    k = cand[0]
                 if last_actor is not None:
-                    for i, j in enumerate(jobs):
-                        if j.actor == last_actor:
+                    for i in cand:
+                        if jobs[i].actor == last_actor:
                             k = i
                             break
                 default = ("job", k)
